@@ -613,7 +613,7 @@ func UpdateSnapshotCount(count int) {
 		storage.Delete(ctx, key)
 	}
 	var curEpoch = Epoch()
-	for k := curEpoch - oldCount + 1; k < curEpoch-count; k++ {
+	for k := curEpoch - oldCount + 1; k <= curEpoch-count; k++ {
 		dropNetmap(ctx, k)
 	}
 }
